@@ -20,7 +20,7 @@ from .. import rowgen as G
 from .. import rowlib as R
 
 MANIFEST = dict(
-    text="Proof (partial): Lean theorem parse_unparse_partial — parse_row(unparse_row(m, layout)) = m over a hand model of RowParser + CellParser — for every row model without header remaps whose fields are str/int/float/bool, lists of those, sub-records of those and lists of such sub-records, under EVERY admissible target-header set (each list, sub-record and list element independently spread over one column per leaf or packed into one cell), for unbounded strings, integers, list lengths and numbers of fields, with default elision/restoration; int(str(i)) = i proved; each hypothesis has a kernel-checked negative witness that is replayed on the real code. The general statement C07_full stays visible and unproved for: remapped headers (so FlowRowModel itself), sub-records nested deeper, lists of lists, untyped lists. The flow row schema and all remap dictionaries are tied to the source by T1 theorems (tables_agree_*). The model is tied to the code by differential runs over dynamically created pydantic row models (fixed + random schemas + FlowRowModel) × all target-header subsets (≤ 64, sampled beyond) × strings over | ; \\ space newline , \" é 日 1 0 true and field-name-shaped strings, on the intermediate dict and on the parsed value; direct oracle parse_row(unparse_row(m, layout)) == m on the real code and through real csv/xlsx files.",
+    text="Proof (partial): Lean theorem parse_unparse_partial — parse_row(unparse_row(m, layout)) = m over a hand model of RowParser + CellParser — for every row model without header remaps whose fields are str/int/float/bool, lists of those, untyped lists, sub-records of basic fields and lists of such sub-records, under EVERY admissible target-header set (each list, sub-record and list element independently spread over one column per leaf or packed into one cell), for unbounded strings, integers, list lengths and numbers of fields, with default elision/restoration; int(str(i)) = i proved; each hypothesis has a kernel-checked negative witness that is replayed on the real code. The general statement C07_full stays visible and unproved for: remapped headers (so FlowRowModel itself), sub-records holding lists or sub-records, lists of lists. The flow row schema and all remap dictionaries are tied to the source by T1 theorems (tables_agree_*). The model is tied to the code by differential runs over dynamically created pydantic row models (fixed + random schemas + FlowRowModel) × all target-header subsets (≤ 64, sampled beyond) × strings over | ; \\ space newline , \" é 日 1 0 true and field-name-shaped strings, on the intermediate dict and on the parsed value; direct oracle parse_row(unparse_row(m, layout)) == m on the real code and through real csv/xlsx files.",
     ref="§5 C07",
     note="Trusts: Lean kernel (axioms audited each run), the differential harness and Driver JSON codec, pydantic v1 (field order, defaults, ==), CPython str()/int()/float() as modelled (float is an abstract codec carrying repr(x)), tablib/csv/openpyxl for the file route. FlowRowModel round trips are covered by tie + oracle (≈ 7 k in-domain rows per quick run), not by the theorem. Known finding F-C04-d (spread untyped list of lists) excluded from the main stream and exercised separately. Templates ('{') and U+0001 are outside the representable domain.",
     technique="Lean 4 proof (record-level induction over fields, frame/nesting lemmas for find_entry, C08 split_join for packed cells) + model/code correspondence + direct round-trip oracle",
@@ -131,9 +131,9 @@ def worker(cases):
         t, sj, meta = _SCHEMAS[si]
         out["n"] += 1
         # the oracle's domain must be the theorem's domain: Python mirror vs the Lean predicates
-        mirror = {"repr": R.representable(t, v), "adm": R.admissible(t, targets)}
+        mirror = {"repr": R.representable(t, v), "adm": R.admissible(t, targets), "any": R.any_spread_ok(t, targets, v)}
         if dm != mirror:
-            out["ties"].append({"what": "Representable/Admissible: harness mirror differs from the Lean predicates",
+            out["ties"].append({"what": "Representable/Admissible/AnySpreadOk: harness mirror differs from the Lean predicates",
                                 "lean": dm, "harness": mirror, "schema_name": t[1], "targets": targets, "value": R.val_json(t, v)})
         cls = R.mk_class(t)
         try:
@@ -442,8 +442,8 @@ def run(ck: core.Check):
 
 
 PARTIAL_GAP = [
-    "parse_unparse_partial is proved for rows without header remaps whose fields are basic (str/int/float/bool), List[str], or one level of sub-records of basic fields — each list / sub-record spread or packed under ANY target-header set, unbounded strings / integers / list lengths / number of fields",
-    "not proved (stated as C07_full, exercised by tie + oracle only): lists of non-string elements, lists of lists, lists of sub-records (so not FlowRowModel.edges), sub-records containing lists or sub-records, untyped lists, header remaps (field_name_to_header_name / context remap)",
+    "parse_unparse_partial is proved for rows without header remaps whose fields are basic (str/int/float/bool), lists of basic values, untyped lists, sub-records of basic fields, or lists of such sub-records — each list / sub-record / list element independently spread or packed under ANY admissible target-header set, unbounded strings / integers / list lengths / number of fields",
+    "not proved (stated as C07_full, exercised by tie + oracle only): lists of lists, sub-records containing lists / untyped lists / sub-records (so not FlowRowModel.edges with its nested condition, wa_template, webhook), header remaps (field_name_to_header_name / context remap)",
     "floats are an abstract codec: the value domain carries repr(x); float(repr(x)) == x is CPython's, checked by the tie",
 ]
 
